@@ -1,5 +1,6 @@
 \* n = 4, f = 1 (three correct validators, one Byzantine), two valid values, rounds 0..1,
 \* proposer schedule c1f1.  Measured (TLC 2026.09, see evidence): c1c2 372,820 / f1c1 840,805 distinct states.
+\* Measured c1f1: 681,058 distinct / 2,884,369 generated states, depth 23.
 CONSTANTS
   Corr = {"c1", "c2", "c3"}
   Faulty = {"f1"}
